@@ -3,22 +3,29 @@
 EXTENDS Naturals, Sequences, FiniteSets, TLC, Json, IOUtils
 Trace == ndJsonDeserialize(IOEnv.VERIF_TRACE)
 N == Len(Trace)
-VARIABLES l, table, unknown, rewrite
-vars == <<l, table, unknown, rewrite>>
+VARIABLES l, table, unknown, rewrite, uid
+vars == <<l, table, unknown, rewrite, uid>>
 Ev == Trace[l]
 Is(e) == l <= N /\ Ev.ev = e
 Step == l' = l + 1 /\ TLCSet(1, l)
-Init == l = 1 /\ table = {} /\ unknown = FALSE /\ rewrite = FALSE /\ TLCSet(1, 0)
-Reset == Is("Reset") /\ table' = {} /\ unknown' = Ev.unknown /\ rewrite' = ("rewrite" \in DOMAIN Ev /\ Ev.rewrite) /\ Step
+\* uid: the identity of the unknown handlers that are current ("unknown" in the scenarios that install one pair at most)
+Init == l = 1 /\ table = {} /\ unknown = FALSE /\ rewrite = FALSE /\ uid = "unknown" /\ TLCSet(1, 0)
+Reset == Is("Reset") /\ table' = {} /\ unknown' = Ev.unknown /\ rewrite' = ("rewrite" \in DOMAIN Ev /\ Ev.rewrite)
+         /\ uid' = (IF "uid" \in DOMAIN Ev /\ Ev.uid # "" THEN Ev.uid ELSE "unknown") /\ Step
+\* "live" scenarios (Router.tla): the configuration changes while sessions exist.  Before every round of requests the
+\* scenario states which unknown handlers are current at that point (copied from the scenario, "" = none); it holds for
+\* the requests that follow, whatever the age of the session they are made on
+Phase == Is("Phase") /\ unknown' = (Ev.expunknown # "") /\ uid' = (IF Ev.expunknown # "" THEN Ev.expunknown ELSE "unknown")
+         /\ UNCHANGED <<table, rewrite>> /\ Step
 \* name mapping: total (no panic), deterministic, equal to the documented table where the table speaks
 MapCase == Is("MapCase") /\ ~Ev.panicked /\ Ev.out1 = Ev.out2 /\ (Ev.expected # "" => Ev.out1 = Ev.expected)
-           /\ UNCHANGED <<table, unknown, rewrite>> /\ Step
+           /\ UNCHANGED <<table, unknown, rewrite, uid>> /\ Step
 \* a registration returns the names of its handler; two registrations never share a name in one namespace
 Registered ==
   /\ Is("Registered")
   /\ \A i \in 1..Len(Ev.names) : ~(\E r \in table : r[1] = Ev.ns /\ r[2] = Ev.names[i])
   /\ table' = table \cup {<<Ev.ns, Ev.names[i], Ev.handlers[i]>> : i \in 1..Len(Ev.names)}
-  /\ UNCHANGED <<unknown, rewrite>> /\ Step
+  /\ UNCHANGED <<unknown, rewrite, uid>> /\ Step
 Owner(ns, name) == IF \E r \in table : r[1] = ns /\ r[2] = name THEN (CHOOSE r \in table : r[1] = ns /\ r[2] = name)[3] ELSE ""
 \* a request for a registered name runs exactly its handler; any other name runs the unknown handler if set,
 \* else no handler at all and (for a CALL) Not Found; CALL and PUSH are separate namespaces
@@ -27,14 +34,14 @@ Request ==
      \* with the ignore-case plugin the name that counts is the rewritten (lower-case) one
   /\ LET own == Owner(Ev.ns, IF rewrite THEN Ev.lname ELSE Ev.name) IN
        IF own # "" THEN Ev.ran = <<own>> /\ (Ev.ns = "call" => Ev.code = 0)
-       ELSE IF unknown THEN Ev.ran = <<"unknown-" \o Ev.ns>>
+       ELSE IF unknown THEN Ev.ran = <<uid \o "-" \o Ev.ns>>
        ELSE Ev.ran = <<>> /\ (Ev.ns = "call" => Ev.code = 404)
-  /\ UNCHANGED <<table, unknown, rewrite>> /\ Step
+  /\ UNCHANGED <<table, unknown, rewrite, uid>> /\ Step
 \* two registrations that map to one name make the registration fail (the process exits), never a silent share
-Conflict == Is("Conflict") /\ (IF Ev.expectconflict THEN Ev.exit # 0 ELSE Ev.exit = 0) /\ UNCHANGED <<table, unknown, rewrite>> /\ Step
-Known == {"Reset", "MapCase", "Registered", "Request", "Conflict"}
-Skip == l <= N /\ Ev.ev \notin Known /\ UNCHANGED <<table, unknown, rewrite>> /\ Step
-Next == Reset \/ MapCase \/ Registered \/ Request \/ Conflict \/ Skip
+Conflict == Is("Conflict") /\ (IF Ev.expectconflict THEN Ev.exit # 0 ELSE Ev.exit = 0) /\ UNCHANGED <<table, unknown, rewrite, uid>> /\ Step
+Known == {"Reset", "MapCase", "Registered", "Request", "Conflict", "Phase"}
+Skip == l <= N /\ Ev.ev \notin Known /\ UNCHANGED <<table, unknown, rewrite, uid>> /\ Step
+Next == Reset \/ MapCase \/ Registered \/ Request \/ Conflict \/ Phase \/ Skip
 Spec == Init /\ [][Next]_vars
 Accepted == PrintT(<<"HWM", TLCGet(1), N>>) /\ TRUE
 =============================================================================
